@@ -1,5 +1,5 @@
 """Property -> rule functions."""
-from .rules import safety, codecs, determinism, exhaust, otl, tables, xmlvocab, container, fea, curves
+from .rules import safety, codecs, determinism, exhaust, otl, tables, xmlvocab, container, fea, curves, cff
 
 
 def _scoped(fn, **kw):
@@ -20,6 +20,7 @@ PROPS = {
     "C07": exhaust.ALL_C07 + [_scoped(exhaust.f19_varidx, scope=("subset/",), rule="F19"), _scoped(determinism.f12_set_order, scope=("subset/",), rule="F12-subset")],
     "C08": exhaust.ALL_C08 + [_scoped(exhaust.f19_varidx, scope=("varLib/instancer/",), rule="F19"), _scoped(determinism.f12_set_order, scope=("varLib/instancer/",), rule="F12-instancer")],
     "C11": fea.ALL + [_scoped(exhaust.f19_varidx, scope=("feaLib/",), rule="F19"), _scoped(determinism.f12_set_order, scope=("feaLib/", "otlLib/"), rule="F12-fea")],
+    "C12": cff.ALL + [codecs.f6_tables, codecs.f5_ps_operands, codecs.f5_subr_bias],
     "C13": curves.ALL,
     "C15": codecs.ALL,
     "C16": determinism.ALL,
